@@ -17,7 +17,7 @@ CHECKS = {
  "C04": ("exploration", "runtime monitor: reference-model oracle + panic events, exhaustive small-block enumeration",
          "Rank, linear complexity and Maurer results compared with GF(2) elimination / Berlekamp-Massey / direct Maurer references; every rank 0..32, every m-bit block for m<=16 (18 thorough) as single-block calls (exhaustive at those m), special blocks at m=500/1000/5000, pattern-starved Maurer initialisation; a panic on an admissible input is a violation.", REF, "4/C04"),
  "C05": ("exploration", "runtime monitor: reference-model oracle (independent FFT validated by direct summation)",
-         "DFT test compared with the statistic computed from an independent FFT whose bins are validated against direct summation in the same run; N1 is an interval when a magnitude is within 1e-9*sqrt(n) of the threshold. n up to 65537 quick, 2^22 thorough; n = 10^8 not run (6 GB per call).", REF, "4/C05"),
+         "DFT test compared with the statistic computed from an independent FFT whose bins are validated against direct summation in the same run; N1 is an interval when a magnitude is within 1e-9*sqrt(n) of the threshold. n up to 131073 quick, 2^22 plus one 10^8-bit case (2^27 points) thorough.", REF, "4/C05"),
  "C06": ("exploration", "runtime monitor: exact-arithmetic oracle",
          "Igamc compared with exact finite sums for Q(k/2,x) in 160-bit arithmetic at the property's own tolerance, plus exactly-1 for x<=0, range and monotonicity on (x, x(1+10^-u)) pairs; shapes k/2 for all k<=128 and seeded k<=10000, x dense around x=1, x=a and in both tails.", REF, "4/C06"),
  "C12": ("exploration", "runtime monitor: exhaustive comparison with exact integer rule; reference binning",
